@@ -222,7 +222,16 @@ class Gen:
                 w += [(5, "if"), (2, "match"), (2, "forbit")]
             k = rs.weighted(w)
             if k == "simple":
-                out.append(self.simple(env))
+                st = self.simple(env)
+                out.append(st)
+                if st[0] == "snap" and rs.below(2):
+                    # the snapshot idiom in full: take the snapshot, change the variable, use the snapshot
+                    out.append(["var", "b0", ["cv", self.cond(env, 1)], rs.below(2)])
+                    for _ in range(4):
+                        t, kind = self.target(env)
+                        if kind == "bit":
+                            out.append(["asg", t, ["cv", ["tb", st[1]]], rs.below(2) if t[0] == "sig" else 0])
+                            break
             elif k == "if":
                 arms = []
                 for _ in range(rs.range(1, 3)):
